@@ -22,10 +22,10 @@ ID = "C14"
 NAME = "lockstep"
 TITLE = "Walkers evolve independently; batching and storage format change nothing"
 
-MENU = {"quick": 32, "thorough": 128}
+MENU = {"quick": 36, "thorough": 132}
 TIERS = {
-    "quick": dict(runs=32 * 12, budget_s=170, recheck=2, shrink_s=60.0, run_timeout_s=900),
-    "thorough": dict(runs=128 * 120, budget_s=1200, recheck=6, shrink_s=180.0, run_timeout_s=1800),
+    "quick": dict(runs=36 * 12, budget_s=170, recheck=2, shrink_s=60.0, run_timeout_s=900),
+    "thorough": dict(runs=132 * 120, budget_s=1200, recheck=6, shrink_s=180.0, run_timeout_s=1800),
 }
 RULE = (
     "run i uses compiled-menu entry i mod M (electron count, Cholesky count, walkers, dt, batch counts, kind: step machine / sampler / "
@@ -45,7 +45,7 @@ COMPONENTS = {
              "ad_afqmc.sampling.sampler.propagate_phaseless(_ad_norot)", "ad_afqmc.driver.afqmc", "jax / XLA CPU"],
     "stub": ["mpi4py.MPI -> SimComm/SimWorld", "wall clock", "stdout"],
 }
-REQUIRED_PROBES = {"quick": ["permuted_steps", "rebatched_steps", "restricted_vs_unrestricted_steps", "driver_pairs", "sampler_pairs"],
+REQUIRED_PROBES = {"quick": ["permuted_steps", "rebatched_steps", "restricted_vs_unrestricted_steps", "driver_pairs", "sampler_pairs", "perm_kind_steps"],
                    "thorough": ["permuted_steps", "rebatched_steps", "restricted_vs_unrestricted_steps", "driver_pairs", "sampler_pairs", "tail_steps", "sr_ops"]}
 
 OPS = ["step", "step", "step", "tail", "qr", "sr", "measure", "permute", "rebatch"]
@@ -56,8 +56,15 @@ def menu_entry(k):
     nw = r.choice([4, 6, 8])
     m = dict(
         nelec=r.choice([[1, 1], [2, 2], [2, 2]]), norb=4, nchol=r.choice([2, 3]), n_walkers=nw, dt=r.choice([0.01, 0.05, 0.1]),
-        n_batch=r.choice([1, 2]), kind=["steps", "steps", "sampler", "driver"][k % 4],
+        n_batch=r.choice([1, 2]), kind=["steps", "perm", "sampler", "driver", "steps", "perm"][k % 6],
     )
+    if m["kind"] == "perm":
+        # permutation / batch-count covariance for the other trials and walker layouts
+        m["wt"] = r.choice(["unrestricted", "unrestricted", "restricted"])
+        if m["wt"] == "restricted":
+            m["trial"], m["nelec"] = "uhf", r.choice([[2, 1], [3, 1], [2, 2]])
+        else:
+            m["trial"], m["nelec"] = r.choice(["uhf", "noci", "ghf"]), r.choice([[2, 1], [2, 2], [1, 1], [3, 1]])
     if m["kind"] == "sampler":
         m.update(n_prop_steps=r.choice([1, 2, 3]), n_ene_blocks=r.choice([1, 2, 3]), n_sr_blocks=r.choice([1, 2]), entry=r.choice(["plain", "plain", "ad_norot"]))
     if m["kind"] == "driver":
@@ -74,7 +81,9 @@ def gen_cfg(seed, index, tier):
     m["strength"] = rng.choice([0.3, 0.6, 0.9])
     m["mix"] = rng.choice([0.0, 0.1, 0.3])
     m["jax_seed"] = rng.randrange(1, 2**20)
-    if m["kind"] == "steps":
+    if m["kind"] == "perm":
+        m["spin_dep"] = m["wt"] == "unrestricted" and rng.random() < 0.6
+    if m["kind"] in ("steps", "perm"):
         ops = []
         nw = m["n_walkers"]
         for _ in range(rng.randint(8, 30)):
@@ -182,6 +191,8 @@ def cmp_ap(ctx, cfg, opname, pa, pp, perm, nb_p):
 def execute(cfg, ctx):
     if cfg["kind"] == "steps":
         return _exec_steps(cfg, ctx)
+    if cfg["kind"] == "perm":
+        return _exec_perm(cfg, ctx)
     if cfg["kind"] == "sampler":
         return _exec_sampler(cfg, ctx)
     return _exec_driver(cfg, ctx)
@@ -303,6 +314,122 @@ def _exec_steps(cfg, ctx):
         "sim_steps": 3 * nsteps, "sim_time": 3 * nsteps * cfg["dt"],
         "sample": {"cfg": cfg, "final_weights_restricted": np.asarray(pa["weights"]).tolist(), "final_weights_unrestricted": np.asarray(pb["weights"]).tolist(), "final_permutation": perm},
     }
+
+
+def _perm_spec(cfg, n_batch):
+    return dict(norb=cfg["norb"], nelec=cfg["nelec"], nchol=cfg["nchol"], wt=cfg["wt"], trial=cfg["trial"], n_walkers=cfg["n_walkers"], n_batch=n_batch,
+                dt=cfg["dt"], n_exp_terms=6, ham_seed=cfg["ham_seed"], strength=cfg["strength"], mix=cfg["mix"], spin_dep=cfg.get("spin_dep", False))
+
+
+def _take(pd, idx, unres):
+    out = lab.copy_pd(pd)
+    out["walkers"] = [pd["walkers"][0][idx], pd["walkers"][1][idx]] if unres else pd["walkers"][idx]
+    out["weights"] = pd["weights"][idx]
+    out["overlaps"] = pd["overlaps"][idx]
+    return out
+
+
+def _exec_perm(cfg, ctx):
+    """System X (any trial / walker layout) vs its permuted and re-batched copy P."""
+    import jax.numpy as jnp
+    from jax import random as jr
+
+    nw, nchol = cfg["n_walkers"], cfg["nchol"]
+    unres = cfg["wt"] == "unrestricted"
+    x = lab.build_system(_perm_spec(cfg, cfg["n_batch"]), harness=False)
+    copies = {cfg["n_batch"]: x}
+    px = lab.init_state(x, cfg["jax_seed"], harness=False)
+    pp = lab.copy_pd(px)
+    perm, nb_p = list(range(nw)), cfg["n_batch"]
+    key = jr.PRNGKey(cfg["jax_seed"] + 17)
+    site = f"{type(x.plain).__name__}.propagate / {cfg['trial']} (permutation / batch count)"
+    rec, nsteps, nontriv = [], 0, False
+
+    def sys_p():
+        if nb_p not in copies:
+            c = lab.build_system(_perm_spec(cfg, nb_p), harness=False)
+            c.wave_data, c.ham_data = x.wave_data, x.ham_data
+            copies[nb_p] = c
+        return copies[nb_p]
+
+    def walk_arrays(pd):
+        return [np.asarray(pd["walkers"][0]), np.asarray(pd["walkers"][1])] if unres else [np.asarray(pd["walkers"])]
+
+    def compare(opname):
+        idx = np.array(perm)
+        klass = "lockstep.output_not_permutation_covariant" if perm != sorted(perm) else "lockstep.output_depends_on_batch_count"
+        if not _close(np.asarray(pp["weights"]), np.asarray(px["weights"])[idx], 1e-10, 1e-13):
+            _bad(ctx, klass, site, cfg, op=opname, key="weights", perm=perm, n_batch_copy=nb_p)
+            return
+        live = np.asarray(pp["weights"]) > 0
+        if np.any(live):
+            if not _close(np.asarray(pp["overlaps"])[live], np.asarray(px["overlaps"])[idx][live], 1e-10, 1e-300):
+                _bad(ctx, klass, site, cfg, op=opname, key="overlaps", perm=perm, n_batch_copy=nb_p)
+                return
+            for a, b in zip(walk_arrays(pp), walk_arrays(px)):
+                if not _close(a[live], b[idx][live], 1e-10, 1e-13):
+                    _bad(ctx, klass, site, cfg, op=opname, key="walkers", perm=perm, n_batch_copy=nb_p)
+                    return
+        if not _close(pp["pop_control_ene_shift"], px["pop_control_ene_shift"], 1e-11, 1e-11):
+            _bad(ctx, "lockstep.shift_not_symmetric_in_weights", site, cfg, op=opname, perm=perm)
+
+    for k, op in enumerate(cfg["ops"]):
+        name = op[0]
+        if float(np.sum(np.asarray(px["weights"]))) <= 0:
+            ctx.count("population_extinct")
+            break
+        if name in ("step", "tail"):
+            key, sub = jr.split(key)
+            f = np.array(jr.normal(sub, shape=(nw, nchol)))
+            if name == "tail":
+                f[op[1], :] *= op[2]
+                ctx.probe("tail_steps", 1)
+            px = x.plain.propagate(x.trial, x.ham_data, lab.copy_pd(px), jnp.array(f), x.wave_data)
+            sp = sys_p()
+            pp = sp.plain.propagate(sp.trial, sp.ham_data, lab.copy_pd(pp), jnp.array(f[np.array(perm)]), sp.wave_data)
+            nsteps += 1
+            if perm != list(range(nw)):
+                ctx.probe("permuted_steps", 1)
+                nontriv = True
+            if nb_p != cfg["n_batch"]:
+                ctx.probe("rebatched_steps", 1)
+            ctx.probe("perm_kind_steps", 1)
+        elif name == "qr":
+            px = x.plain.orthonormalize_walkers(lab.copy_pd(px))
+            pp = sys_p().plain.orthonormalize_walkers(lab.copy_pd(pp))
+            px["overlaps"] = replay.public_calls(x.trial)[0](px["walkers"], x.wave_data)
+            pp["overlaps"] = replay.public_calls(sys_p().trial)[0](pp["walkers"], x.wave_data)
+        elif name == "sr":
+            px = x.plain.stochastic_reconfiguration_local(lab.copy_pd(px))
+            px["overlaps"] = replay.public_calls(x.trial)[0](px["walkers"], x.wave_data)
+            pp = _take(px, np.array(perm), unres)  # order dependent by design: re-synchronise
+            ctx.probe("sr_ops", 1)
+        elif name == "measure":
+            ox, fx, ex = _measure(x, px)
+            op_, fp_, ep = _measure(sys_p(), pp)
+            idx = np.array(perm)
+            for nm, a, b in (("overlap", op_, ox[idx]), ("force_bias", fp_, fx[idx]), ("energy", ep, ex[idx])):
+                live = np.asarray(pp["weights"]) > 0
+                if np.any(live) and not _close(a[live], b[live], 1e-9, 1e-11):
+                    _bad(ctx, "lockstep.measurement_not_permutation_covariant" if perm != sorted(perm) else "lockstep.measurement_depends_on_batch_count",
+                         f"wave_function.calc_* / {cfg['trial']}", cfg, op=k, quantity=nm, perm=perm, n_batch_copy=nb_p)
+            rec.append(arr_hash(ox, fx, ex))
+            continue
+        elif name == "permute":
+            pp = _take(pp, np.array(op[1]), unres)
+            perm = [perm[j] for j in op[1]]
+            continue
+        elif name == "rebatch":
+            nb_p = op[1]
+            continue
+        compare(f"{k}:{name}")
+        rec.append(arr_hash(np.asarray(px["weights"]), np.asarray(px["overlaps"])))
+    ctx.count("operations", len(cfg["ops"]))
+    ctx.count("steps", nsteps)
+    return {"digest": arr_hash(np.frombuffer("|".join(rec).encode(), np.uint8)), "nontrivial": nsteps >= 2 and nontriv,
+            "state_keys": [f"perm-{cfg['wt']}-{cfg['trial']}-{cfg['nelec']}-nb{cfg['n_batch']}"],
+            "sim_steps": 2 * nsteps, "sim_time": 2 * nsteps * cfg["dt"],
+            "sample": {"cfg": cfg, "final_weights": np.asarray(px["weights"]).tolist(), "final_permutation": perm}}
 
 
 def _exec_sampler(cfg, ctx):
